@@ -1,6 +1,6 @@
 """C01 - grounded interpretation = least fixpoint on every back-end."""
 from mirlib import facts, flow, ir, symx
-from rules import kernel, semantics, shared
+from rules import deps, kernel, semantics, shared
 
 EXPLANATION = """
 Decided (the necessary skeleton of the least-fixpoint computation, all paths): S.T-term (truth tables of the
@@ -10,7 +10,11 @@ ones are left alone), C01.P-progress (both fixpoint loops have a single exit whi
 condition became a truth value in the round: affine counter / flag argument), C01.F-io (grounded starts from a copy
 of the acceptance conditions, only undecided entries are re-restricted, the loop result is returned - biodivine:
 mapped through the From<&Bdd> table), C01.A-hybrid (hybrid_step feeds grounded_internal(self.ac) and
-hybrid_step_opt(false) feeds self.ac into the bridge, together with the same VarContainer)."""
+hybrid_step_opt(false) feeds self.ac into the bridge, together with the same VarContainer).
+Dependency suites (rules/deps.py; each obligation is a necessary condition of this property, reported under its own rule id):
+kernel-build (C07.T-conn, C07.T-ite0, C07.R-ite, S.F-memo ite_cache, S.R-node, S.R-new, S.W-store, C06.W-ctor), kernel-restrict
+(C07.R-restrict, S.F-memo restrict_cache) and translation (C09.A-wire, C09.A-term, C09.F-order, C09.A-name, C01.A-hybrid): an answer
+is computed on diagrams built by these functions, on every back-end."""
 NOT_DECIDED = ("That the result equals the least fixpoint as a function of the ADF additionally needs the kernel obligations (C06/C07) and an "
                "induction over rounds argued on paper; equality across variable orders is not decided.")
 TECHNIQUE = "static analysis: finite-domain closure tables, loop-cut path summaries with an affine progress counter, provenance of loop inputs/outputs"
@@ -173,4 +177,4 @@ def check(ctx):
         ctx.floor(rule, "biodivine list constructions", kb, 1)
         semantics.P_progress(ctx, lib, "C01.P-progress")
         F_io(ctx, lib)
-        A_hybrid(ctx, lib)
+        deps.semantics_base(ctx, lib)   # includes A_hybrid
